@@ -526,11 +526,26 @@ pub fn run<F: Flav>(rep: &mut Report, nk: usize, depth: usize, random: u64, hist
     }
     rep.count("enumerations_completed");
     for hi in 0..random {
-        let nk = 2 + rng.below(5);
+        let big = hi % 3 == 2;
+        let nk = if big { 7 + rng.below(18) } else { 2 + rng.below(5) };
         let a = alphabet(nk);
+        let inserts: Vec<COp> = a.iter().copied().filter(|o| matches!(o, COp::Insert(..))).collect();
         let mut h = vec![];
-        for _ in 0..hist_len {
+        if big {
+            rep.count("random_histories_7_to_24_keys");
+            // fill most of the container first
+            for _ in 0..(nk + rng.below(nk)) {
+                h.push(*rng.pick(&inserts));
+            }
+        }
+        for _ in 0..(if big { hist_len + 100 } else { hist_len }) {
             let mut op = *rng.pick(&a);
+            if big && rng.chance(1, 6) {
+                // remove and re-insert (possibly the other object of that key)
+                let k = rng.below(nk) as K;
+                h.push(COp::Remove(k));
+                op = COp::Insert(k, rng.below(2) as u8);
+            }
             // edge operations stay on the variant-a objects: the node properties
             // presuppose distinct keys among connected nodes
             if let COp::ConnectVia(x, y, _) = op {
